@@ -83,6 +83,7 @@ class Gen(object):
         self.versions = versions
         self.max_total = max_total
         self.name_seq = 0
+        self.seen_names = set()
         self.focus_p = None     # restrict provider choices (conc batches)
         self.custom_traits = list(CUSTOM_TRAITS)
         if rng.random() < 0.2:
@@ -150,6 +151,15 @@ class Gen(object):
                               {'total': t, 'allocation_ratio': 0.0},
                               {'total': t, 'reserved': 0,
                                'allocation_ratio': 0.0, 'max_unit': t}])
+        if self.chance(0.02):
+            # the largest values the schema admits
+            big = 2147483647
+            return self.pick([{'total': big},
+                              {'total': big, 'reserved': big - 3},
+                              {'total': big, 'max_unit': big,
+                               'allocation_ratio': 1.0},
+                              {'total': big, 'step_size': big,
+                               'max_unit': big}])
         total = self.rng.randint(1, self.max_total)
         if self.roomy:
             total = self.rng.randint(4, max(8, self.max_total * 2))
@@ -207,7 +217,14 @@ class Gen(object):
                 if not op.get('defect') and \
                         self.chance(self.invalid_rate * 0.12):
                     self.schema_break(op)
-                if self.accept_variants and self.chance(0.04):
+                if self.accept_variants and op.get('v') not in (
+                        None, 'latest') and self.chance(0.03):
+                    # the header may list versions for several services
+                    op['h'] = {'openstack-api-version': self.pick([
+                        'compute 2.53, placement %s', 'placement %s, compute '
+                        '2.1', 'identity 3, placement %s,volume 3.0',
+                        'PLACEMENT %s']) % op['v']}
+                elif self.accept_variants and self.chance(0.04):
                     # what the client says it accepts: read routes answer
                     # 406 when JSON is not acceptable, writes do not look
                     acc = self.pick(ACCEPTS)
@@ -327,6 +344,12 @@ class Gen(object):
             return None
         u = self.pick(missing)
         b = {'name': 'rp-%s-%d' % (u[-2:], self.name_seq), 'uuid': u}
+        used = set(p_['name'] for p_ in m.providers.values())
+        self.seen_names.update(used)
+        free = sorted(self.seen_names - used)
+        if free and self.chance(0.3):
+            # a name (like a uuid) is free again once its provider is gone
+            b['name'] = self.pick(free)
         if self.chance(0.08):
             # names are free text of up to 200 characters
             b['name'] = self.pick([
@@ -633,6 +656,12 @@ class Gen(object):
                  if n >= lo and n % step == 0]
         if not cands:
             cands = [room]
+        elif room > 1000 and self.chance(0.3):
+            # everything that is left, however much
+            top = min(room, inv['max_unit'])
+            top -= top % step
+            if top >= lo and top > 0:
+                return top
         return self.pick(cands)
 
     def spanning_alloc(self, m, providers, excluding):
